@@ -103,6 +103,12 @@ func runC04Case(run *ev.Run, cs c04Case) {
 			return 0, true
 		}
 		switch cs.Pacer {
+		case "long-once":
+			// one wait of more than a second in the middle of the attack (a rate below 1 hit/s)
+			if i == 2 {
+				return cs.WaitNs, false
+			}
+			return 0, false
 		case "const", "straddle":
 			return cs.WaitNs, false
 		case "prng":
@@ -469,6 +475,14 @@ func runC04(c *Ctx) int {
 			logCase(string(b))
 			runC04Case(run, cs)
 		}
+		{
+			// the loop must sit out a wait of more than a second in one piece: no consultation in between
+			cs := c04Case{Pacer: "long-once", WaitNs: 1100*time.Millisecond + time.Duration(rng.Intn(300))*time.Millisecond, StopAt: 5, Workers: 2, Max: 2, Seed: rng.Int63()}
+			b, _ := json.Marshal(cs)
+			logCase(string(b))
+			runC04Case(run, cs)
+			run.Count("attacks_with_a_wait_of_more_than_a_second", 1)
+		}
 		for i := 0; i < 2; i++ {
 			cs := c04Case{Pacer: "dual", WaitNs: time.Duration(100+rng.Intn(400)) * time.Microsecond, StopAt: 80 + rng.Intn(80), ExtStop: 10 + rng.Intn(20),
 				Workers: []uint64{1, 2, 8}[rng.Intn(3)], Max: 8, Seed: rng.Int63()}
@@ -531,6 +545,7 @@ func runC04(c *Ctx) int {
 	run.Floor("attacks", int64(shards*per*9/10))
 	run.Floor("attacks_whose_pacer_asks_for_a_wait_of_centuries", int64(shards))
 	run.Floor("first_attack_paced_while_second_running", int64(shards))
+	run.Floor("attacks_with_a_wait_of_more_than_a_second", int64(shards*8/10))
 	run.Floor("pace_calls", 3000)
 	run.Floor("transport_entries", 3000)
 	run.FloorDistinct(shards * per / 2)
